@@ -15,7 +15,8 @@ from facts import Facts, AnchorError
 
 VERIF = os.path.dirname(os.path.dirname(os.path.abspath(__file__)))
 REPO = os.environ.get("VERIF_REPO", "/repo")
-OUT = os.path.join(VERIF, "out")
+OUT = os.environ.get("VERIF_OUT_DIR") or os.path.join(VERIF, "out")
+EVIDENCE_DIR = os.environ.get("VERIF_EVIDENCE_DIR") or os.path.join(VERIF, "evidence")
 DRIVER_DIR = os.path.join(VERIF, "driver")
 DRIVER = os.path.join(DRIVER_DIR, "target", "release", "discv5-facts-driver")
 FIXTURES = os.path.join(VERIF, "fixtures")
@@ -74,7 +75,7 @@ def export_facts(crate_dir, crate_name, profile, label):
     """run the driver over `crate_dir`; returns the path of the cached fact file"""
     ensure_driver()
     key = tree_hash(crate_dir, extra_files=[DRIVER])[:20]
-    cache_dir = os.path.join(OUT, "facts")
+    cache_dir = os.environ.get("VERIF_FACTS_DIR") or os.path.join(OUT, "facts")
     os.makedirs(cache_dir, exist_ok=True)
     target = os.path.join(cache_dir, "%s-%s-%s.jsonl" % (label, key, profile))
     lock_path = os.path.join(cache_dir, ".lock-%s-%s" % (label, profile))
@@ -245,7 +246,7 @@ def run_property(pid, tier, rules_fn, explanation, not_decided, trusted_base=(),
     for r in rules:
         r.finish()
     # checker self-validation on the fixture crate: fire on bad_*, silent on good_*
-    if selftest_fn is not None:
+    if selftest_fn is not None and not os.environ.get("VERIF_NO_SELFTEST"):
         try:
             st = selftest_fn(ctx)
         except AnchorError as e:
@@ -314,8 +315,8 @@ def run_property(pid, tier, rules_fn, explanation, not_decided, trusted_base=(),
         "wall_s": round(time.time() - t0, 2),
         "violations": len(violations),
     }
-    os.makedirs(os.path.join(VERIF, "evidence"), exist_ok=True)
-    with open(os.path.join(VERIF, "evidence", pid + ".json"), "w") as f:
+    os.makedirs(EVIDENCE_DIR, exist_ok=True)
+    with open(os.path.join(EVIDENCE_DIR, pid + ".json"), "w") as f:
         json.dump(ev, f, indent=1)
         f.write("\n")
     for r in rules:
